@@ -199,6 +199,11 @@ func c09(r *hx.Run) {
 			if rn := new(big.Int).Add(rr, N); len(rn.Bytes()) <= n/2 {
 				classes["r-plus-n"] = append(pad(rn), sb[n/2:]...)
 			}
+			for _, z := range []int{1, 2, 8} {
+				zs := make([]byte, z)
+				classes[fmt.Sprintf("halves-zero-padded-%d", z)] = append(append(append(append([]byte{}, zs...), sb[:n/2]...), zs...), sb[n/2:]...)
+				classes[fmt.Sprintf("halves-zero-suffixed-%d", z)] = append(append(append(append([]byte{}, sb[:n/2]...), zs...), sb[n/2:]...), zs...)
+			}
 			der, _ := asn1.Marshal(struct{ R, S *big.Int }{rr, ss})
 			classes["der"] = der
 			// the tolerated twin
@@ -270,6 +275,38 @@ func c09(r *hx.Run) {
 					r.Nontrivial(cid)
 				}
 			}
+		}
+	}
+
+	// --- keys whose coordinates have a leading zero byte: library JWK conversion, signing and verification
+	for _, kt := range []string{fx.P256, fx.P384, fx.P521, fx.Secp256k1} {
+		for _, which := range []string{"x", "y"} {
+			if r.Tier == "quick" && (kt == fx.P384 || kt == fx.P521) && which == "y" {
+				continue
+			}
+			k := fx.ShortCoordKey(kt, which)
+			caseID := fmt.Sprintf("shortcoord|%s|%s", kt, which)
+			if !r.Want(caseID) {
+				continue
+			}
+			r.State()
+			libJWK, err := pubkey.GetPublicKeyJWK(&ecdsa.PublicKey{Curve: k.EC.Curve, X: k.EC.X, Y: k.EC.Y})
+			if err != nil || *libJWK != *k.JWK {
+				r.Violation("lib-jwk-differs:"+kt+":short-"+which, caseID, fmt.Sprintf("pubkey.GetPublicKeyJWK for a key whose %s has a leading zero byte gives %+v (err %v), fixed-width encoding %+v", which, libJWK, err, k.JWK), nil)
+				continue
+			}
+			c, err := verifhooks.SignPayload(payloads[0], ecsigner.New(k.EC, fx.AlgFor(kt), ""))
+			if err != nil {
+				r.Violation("lib-sign-error:"+kt, caseID, err.Error(), nil)
+				continue
+			}
+			if ok, verr := verifyNoPanic(r, caseID, c, libJWK); !ok {
+				r.Violation("lib-signed-rejected:"+kt+":short-"+which, caseID, fmt.Sprintf("JWS signed and converted by the library does not verify: %v", verr), nil)
+			}
+			if ok, verr := verifyNoPanic(r, caseID, fx.CompactJWS(k, payloads[1], nil), k.JWK); !ok {
+				r.Violation("rejects-genuine:"+kt+":short-"+which, caseID, fmt.Sprintf("independently built JWS does not verify: %v", verr), nil)
+			}
+			r.Nontrivial(caseID)
 		}
 	}
 
